@@ -69,6 +69,16 @@ def plan(tier):
 
 
 def base_bytes(src):
+    data = _base_bytes(src)
+    tr = src.get("transform")
+    if tr == "short_sample_records":
+        data = build.short_sample_records(data)[0]
+    elif isinstance(tr, list) and tr[0] == "short_chunk":
+        data = build.short_array_chunk(data, tr[1], tr[2])[0]
+    return data
+
+
+def _base_bytes(src):
     from rv.api import Synth
 
     if src["src"] == "fixture":
